@@ -139,6 +139,11 @@ def run_one(case, use_model, with_probes):
 def refine(case, d, use_model, with_probes):
     """C10 or the underlying property? re-run with the failing op invoked directly on the database"""
     if "C10" not in d["props"]:
+        # something is wrong after a *write through a handle* earlier in the history: that operation touched what
+        # it must not (C10: "operations through it never touch other measurements' points")
+        i = d["index"]
+        if any(case["ops"][k][0] == "H" and D.op_name(case["ops"][k]) in D.REMOVE_OPS | {"ins", "update"} for k in range(i)):
+            d = dict(d, props=d["props"] + ["C10"])
         return d
     i = d["index"]
     if case["ops"][i][0] != "H":
